@@ -718,6 +718,19 @@ func respFields(req *tikvrpc.Request, resp *tikvrpc.Response, err error) map[str
 			ps = append(ps, m)
 		}
 		f["pairs"] = ps
+	case *kvrpcpb.ScanResponse:
+		if r.Error != nil {
+			f["error"] = keyErr(r.Error)
+		}
+		ps := []map[string]interface{}{}
+		for _, p := range r.Pairs {
+			m := map[string]interface{}{"key": hk(p.Key), "value": hk(p.Value)}
+			if p.Error != nil {
+				m["error"] = keyErr(p.Error)
+			}
+			ps = append(ps, m)
+		}
+		f["pairs"] = ps
 	case *kvrpcpb.ScanLockResponse:
 		ls := []map[string]interface{}{}
 		for _, l := range r.Locks {
